@@ -26,6 +26,7 @@ def run(ctx: Ctx) -> int:
     for kind in kinds:
         jobs.append(Job(H, "h_dagger_places", timeout=t, name=f"h_dagger_places[{KINDS[kind]}]", env={"VERIF_C24_KIND": kind}))
     jobs.append(Job(H, "h_dagger_syntax", timeout=t))
+    jobs.append(Job(H, "h_sequence", timeout=t, name="h_sequence[one callee, two contexts in a row]", env={"VERIF_C24_KIND": 1}))
     jobs.append(Job("harness/C24_public.py", "h_public", timeout=t, name="h_public[4 programs through @guppy(unitary=True).check()]"))
     ctx.functions_encoded = ["checker/unitary_checker.py: BBUnitaryChecker.check, _check_call, _check_classical_args, visit_GlobalCall/LocalCall/TensorCall/"
                              "BarrierExpr/StateResultExpr/Assign/AnnAssign/AugAssign/PlaceNode, check_cfg_unitary, check_invalid_under_dagger",
